@@ -266,8 +266,11 @@ def finishCase (s : SSt) (rline : String) : SSt := Id.run do
   let implOut := "\n".intercalate (s.infos.toList.map canonInfo ++ s.bests.toList ++ s.wlines.toList ++ [rline])
   -- ---------- property-level checks on the implementation's output alone ----------
   let legalNames := (Rules.legalMoves sn.pos).map specMoveName
-  if !s.xlines.isEmpty then
-    s := s.report "spec" "C09" "search-panicked" s!"x=[{s.xlines.toList}]"
+  if !(s.xlines.toList.filter fun x => !x.startsWith "K ").isEmpty then
+    s := s.report "spec" "C09" "search-panicked" s!"x=[{(s.xlines.toList.filter fun x => !x.startsWith "K ")}]"
+  match s.xlines.toList.find? (·.startsWith "K ") with
+  | some k => s := s.report "spec" "C04,C02,C09" "search-left-the-position-key-changed" s!"[{k}]"
+  | none => pure ()
   if s.bests.size != 1 then
     s := s.report "spec" "C09" "bestmove-count" s!"count={s.bests.size}"
   else
@@ -335,7 +338,7 @@ def finishCase (s : SSt) (rline : String) : SSt := Id.run do
         s := s.report "spec" "C11" "root-score-vs-spec-negamax" s!"impl={implScore} spec-negamax={sref}"
   let mut pendingMate : Option String := none
   -- C12: after a completed iteration of depth >= 3 the chosen move must respect short forced mates
-  if c.tag != "" && unlimited && c.depth ≥ 3 && c.moves.isEmpty then
+  if c.tag != "" && c.tag != "deep" && unlimited && c.depth ≥ 3 && c.moves.isEmpty then
     let bm := ((s.bests.getD 0 "").splitOn " ").getD 1 ""
     let legal := Rules.legalMoves sn.pos
     match legal.find? (fun x => specMoveName x == bm), legal.find? (fun x => specMoveName x == c.wit) with
@@ -434,6 +437,7 @@ def sstep (s : SSt) (line : String) : SSt :=
   else if line.startsWith "W " then { s with wlines := s.wlines.push line }
   else if line.startsWith "V " then { s with vlines := s.vlines.push line }
   else if line.startsWith "X " then { s with xlines := s.xlines.push line }
+  else if line.startsWith "K " then { s with xlines := s.xlines.push line }
   else if line.startsWith "R " then finishCase s (line.drop 2).toString
   else if line.startsWith "D! " then
     -- the harness searched a position right after an unrelated search (cache cleared in between) and got another result
